@@ -338,7 +338,8 @@ class Gen:
     def text_map(self, components):
         self.features.add("textmap")
         out = {}
-        for lang in self.r.sample(["en", "pl", "de", "en-US"], self.r.randrange(1, 3)):
+        # language tags are text: whatever their case, and two tags that differ in case only are two languages (C03-s)
+        for lang in self.r.sample(["en", "pl", "de", "en-US", "en-us", "EN", "zh-hant", "ZH-hant", "de-ch", "en-GB", "en-gb"], self.r.randrange(1, 4)):
             lm = {}
             for k in self.r.sample(TEXT_KEYS, self.r.randrange(0, 3)):
                 lm[k] = self.text(60)
@@ -368,8 +369,13 @@ class Gen:
         common = {}
         if self.p(0.3):
             self.features.add("dependencies")
-            common["suit-dependencies"] = {str(i): ({"suit-dependency-prefix": self.comp_id()} if self.p(0.6) else {})
-                                           for i in sorted(self.r.sample(range(0, 5), self.r.randrange(0, 3)))}
+            # the entries of suit-dependencies stand in the order of the description: indexes of different digit counts, descending order (C02-s)
+            idx = self.r.sample(range(0, 5) if self.p(0.6) else [0, 1, 2, 9, 10, 11, 23, 24, 100], self.r.randrange(0, 4))
+            if self.p(0.6):
+                idx.sort()
+            else:
+                self.features.add("dependencies:unsorted")
+            common["suit-dependencies"] = {str(i): ({"suit-dependency-prefix": self.comp_id()} if self.p(0.6) else {}) for i in idx}
         if self.p(0.85):
             common["suit-components"] = comps
         if self.p(0.7):
